@@ -212,14 +212,21 @@ PROPS = {
         "correspondence": "real solvers under permutation; mayInvalidate/mergeIntoGuidance witness lines vs chalk-engine",
     },
     "C17": {
+        "extra_props": ["C17ms"],
         "level": "proof",
-        "rule": "pairs of canonical substitutions (1-3 generic args over every constructor, placeholders, consts, lifetimes, variables ^0.i) "
+        "rule": "(a) make_solution itself: 250 programs (2/3 overlapping impls of marker traits - answers that are instances of one another, repeated parameters - 1/3 ProgGen) x 5-6 goals with unknowns: "
+                "solve_multiple completes the root table on one SLGSolver, the stored answers are read through the cfg hook, then solve() on the SAME solver must equal "
+                "makeSolution(stored answers) exactly, and a Definite guidance is matched against every stored answer by an independent matcher; "
+                "(b) pairs of canonical substitutions (1-3 generic args over every constructor, placeholders, consts, lifetimes, variables ^0.i) "
                 "derived from a common ancestor by generalising subterms to variables, then identical / edited / ground-vs-generalised / "
                 "independent; ops may-invalidate, merge, is-trivial, combine (solution pairs sharing or not sharing a substitution), "
                 "with-priorities; 1/12 malformed (kind-mismatched, wrong lengths, free inference variables); non-trivial = the merge "
                 "introduced a variable / the check answered / the two solutions differ; distinct = distinct request lines",
         "technique": "Lean 4 theorems about an exact model of AntiUnifier/MayInvalidate/Solution::combine/with_priorities (induction over the mutual syntax; refutation by witness where the code violates the property) + differential correspondence through cfg hooks + independent matcher as oracle",
-        "claim": "merge_generalizes, combine_comm, combine_no_more, withPriorities_prefers_high are proved for all inputs; the full soundness "
+        "claim": "Props/C17ms.lean (make_solution over a completed table, all tables): none_iff_no_answers, unique_iff_single_unconditional, "
+                 "definite_guidance_covers_every_answer_partial (Definite guidance covers - equals or structurally generalises - EVERY stored answer, merged or skipped by any_future_answer; "
+                 "structural = instance for guidance without repeated variables), definite_guidance_excludes_answer_refuted (the full statement fails on the F1 table [Pair<^0,^0>], [Pair<A,B>]). "
+                 "merge_generalizes, combine_comm, combine_no_more, withPriorities_prefers_high are proved for all inputs; the full soundness "
                  "statement of may_invalidate is refuted on the model by the F1 witness and proved in the partial form (structural instance = "
                  "instance for guidance without repeated variables); every model function is compared exactly with the real one on every run and "
                  "the property's sentences are evaluated on the real code (merge results matched against both inputs, may_invalidate=false "
@@ -227,7 +234,7 @@ PROPS = {
         "note": "Trusted: Lean kernel, model fidelity (differential only), harness + its matcher. Known finding F1 (open): may_invalidate unsound for "
                 "guidance that repeats a variable. Constants: the types of corresponding constants are assumed equal (typing), as the Rust code assumes. "
                 "Linearity of anti-unifier results (each fresh variable used once) is argued in the model's doc comment, not yet a theorem.",
-        "correspondence": "mayInvalidate/mergeIntoGuidance/isTrivial/Solution.combine/withPriorities (lean/ChalkModel/Aggregate.lean) vs chalk-engine slg::{MayInvalidate, aggregate}, chalk-solve Solution::combine, chalk-recursive combine::with_priorities",
+        "correspondence": "makeSolution (lean/ChalkModel/MakeSolution.lean) vs AggregateOps::make_solution through Solver::solve on a forest whose root table was completed; mayInvalidate/mergeIntoGuidance/isTrivial/Solution.combine/withPriorities (lean/ChalkModel/Aggregate.lean) vs chalk-engine slg::{MayInvalidate, aggregate}, chalk-solve Solution::combine, chalk-recursive combine::with_priorities",
     },
     "C18": {
         "level": "proof",
